@@ -204,6 +204,8 @@ class Evaluator:
         if name in self.hooks:
             return self.hooks[name](self, args)
         fn = self.members.get(name)
+        if fn is None and name == 'EmptyCell' and not args:
+            return AV('blank', sign='zero')            # the nested blank class of the runtime copies
         if fn is None:
             raise Unknown(f'method {name} not found')
         if self.depth >= self.max_depth:
@@ -231,6 +233,10 @@ class Evaluator:
                     env[p] = const_av(ast.literal_eval(defaults[di]))
                 except Exception:
                     raise Unknown(f'default of {p}')
+        if fn.args.vararg is not None:
+            env[fn.args.vararg.arg] = AV('tuple', items=tuple(args[len(params):]))
+        elif len(args) > len(params):
+            raise AbsRaise('TypeError', f'{name}() takes {len(params)} positional arguments but {len(args)} were given')
         self.depth += 1
         saved = getattr(self, 'prefix', '')
         self.prefix = name.rsplit('.', 1)[0] + '.' if '.' in name else ''
@@ -423,7 +429,10 @@ class Evaluator:
             raise _Break()
         if isinstance(st, ast.Continue):
             raise _Continue()
-        if isinstance(st, ast.For) and (isinstance(st.target, ast.Name) or (isinstance(st.target, ast.Tuple) and
+        if isinstance(st, ast.ClassDef) and not st.bases and not st.keywords and not st.decorator_list:
+            env[st.name] = AV('other', val=('localclass', st.name, st))
+            return
+        if isinstance(st, ast.For) and (isinstance(st.target, ast.Name) or (isinstance(st.target, (ast.Tuple, ast.List)) and
                                                                          all(isinstance(e, ast.Name) for e in st.target.elts))):
             it = self.ordered(self.ev(st.iter, env))
             if it.kind not in ('list', 'tuple', 'set') or it.items is None:
@@ -803,6 +812,12 @@ class Evaluator:
             if isinstance(node.op, ast.Sub) and a.kind in ('date', 'datetime') and a.kind == b.kind and isinstance(a.val, tuple) and \
                     isinstance(b.val, tuple) and a.val[0] == 'day' and b.val[0] == 'day':
                 return AV('timedelta', val=('days', a.val[1] - b.val[1]))
+            if isinstance(node.op, ast.Mult) and ((a.kind in ('list', 'tuple') and a.items is not None and isinstance(b.val, int)) or
+                                                  (b.kind in ('list', 'tuple') and b.items is not None and isinstance(a.val, int))):
+                seq_, n_ = (a, b.val) if a.items is not None else (b, a.val)
+                if n_ > 10000:
+                    raise Unknown('a very long repeated list')
+                return AV(seq_.kind, items=tuple(seq_.items) * max(0, int(n_)))
             if isinstance(node.op, ast.Add) and a.kind == b.kind and a.kind in ('list', 'tuple') and a.items is not None and \
                     b.items is not None:
                 return AV(a.kind, items=a.items + b.items)
@@ -966,7 +981,7 @@ class Evaluator:
         if txt in table:
             return [table[txt]]
         if isinstance(node, ast.Name) and node.id in env and isinstance(env[node.id].val, tuple) and \
-                env[node.id].val[0] in ('class', 'name'):
+                env[node.id].val[0] in ('class', 'name', 'localclass'):
             nm = env[node.id].val[1]
             return [table.get(nm, nm)]
         if isinstance(node, ast.Name) and node.id[:1].isupper():
@@ -982,6 +997,13 @@ class Evaluator:
         if name is not None and name in env and env[name].kind == 'other' and isinstance(env[name].val, tuple) and \
                 env[name].val[0] == 'name' and env[name].val[1] in ('int', 'float', 'str', 'bool'):
             name = env[name].val[1]                       # a builtin passed around as a value
+        if name is not None and name in env and env[name].kind == 'other' and isinstance(env[name].val, tuple) and \
+                env[name].val[0] == 'localclass':
+            body_ = [b for b in env[name].val[2].body if not isinstance(b, ast.Pass) and
+                     not (isinstance(b, ast.Expr) and isinstance(b.value, ast.Constant))]
+            if body_ or node.args or node.keywords:
+                raise Unknown('a local class with members')
+            return self.new_obj(name, {})
         if name is not None and name in env and env[name].kind == 'func' and isinstance(env[name].val, tuple) and \
                 env[name].val[0] == 'native':
             return env[name].val[1]([self.ev(a, env) for a in node.args])
@@ -1224,6 +1246,13 @@ class Evaluator:
                 self._write_back(node, env)
                 return res_
             txt = ast.unparse(f)
+            if txt in ('date_parser.parse', 'dateutil.parser.parse', 'parser.parse') and len(node.args) == 1:
+                v0 = self.ev(node.args[0], env)
+                if v0.kind != 'str':
+                    raise AbsRaise('TypeError', 'Parser must be a string or character stream')
+                raise Unknown('the date reading of a text')
+            if txt in ('datetime.time', 'time') and not node.keywords:
+                return AV('other', val=('time',) + tuple(self.ev(a, env).val for a in node.args))
             if txt == 'datetime.timedelta':
                 kw = {k.arg: self.ev(k.value, env) for k in node.keywords}
                 d = kw.get('days', self.ev(node.args[0], env) if node.args else const_av(0))
